@@ -557,6 +557,32 @@ fn sweep<'a, 'e, T: IteTable<'a, BddPtr<'a>> + Default>(
     let dom = s.materialise_all();
     let total = dom.len();
     let perm: Vec<usize> = issue_perm(cfg.issue, total).into_iter().map(|i| dom[i]).collect();
+    // read-only queries between construction and use (every second configuration): cached
+    // semantic hashes, counts, node counts and evaluation visit every materialised diagram and
+    // leave their memos behind; the histories below must still return the one canonical pointer
+    // per function and the right functions
+    if cfg.issue % 2 == 1 {
+        use rsdd::repr::DDNNFPtr;
+        let width = cfg.manager_vars();
+        let hmap = rsdd::repr::create_semantic_hash_map::<{ rsdd::constants::primes::U64_LARGEST }>(width);
+        let wmap: rsdd::repr::WmcParams<rsdd::util::semirings::RealSemiring> = rsdd::repr::WmcParams::new(
+            (0..width).map(|v| (VarLabel::new(v as u64), (rsdd::util::semirings::RealSemiring(0.25), rsdd::util::semirings::RealSemiring(0.75)))).collect::<HashMap<_, _>>(),
+        );
+        for &t in dom.iter() {
+            let p = s.f[t];
+            let r = guarded(|| {
+                let _ = p.cached_semantic_hash(b.order(), &hmap);
+                let _ = p.unsmoothed_wmc(&wmap);
+                let _ = p.count_nodes();
+            });
+            s.rep.evaluations += 3;
+            if let Err(e) = r {
+                s.viol("C01", "panic", format!("a read-only query on {:#x} panicked: {}", t, e), &Op::Materialise(t as TT));
+            }
+        }
+        s.recheck_pool();
+        s.rep.add_extra("configurations_with_interleaved_queries", 1);
+    }
     // all ordered pairs x {and, or, xor, iff}
     'outer: for &i in perm.iter() {
         for &j in perm.iter() {
